@@ -349,18 +349,19 @@ def execute(doc):
         prev = calibs[op['prev']]['obj']
         prev_name = 'calib:' + op['prev']
         rec.probe('calibrate_with_previous')
+      ret = None
       try:
         ret = Q['obj'].calibrate(stream, previous_calibration_result=prev)
-        outcome = 'returned'
-        calibs[op['out']] = {'obj': ret, 'pristine': pickle.dumps(ret, protocol=4),
-                             'model': Q['model']}
-        owned.add('calib:' + op['out'], ret, 'calibration-result')
-        rec.event(step, 'calibrate', 'returned', core.digest(ret))
       except harness.SimulatedIOError:
         rec.fault('stream_fail')
         rec.event(step, 'calibrate', 'stream-failed')
       except Exception as e:  # pylint: disable=broad-except
         rec.event(step, 'calibrate', 'raised:' + harness.exc_class(e))
+      if ret is not None:
+        calibs[op['out']] = {'obj': ret, 'pristine': pickle.dumps(ret, protocol=4),
+                             'model': Q['model']}
+        owned.add('calib:' + op['out'], ret, 'calibration-result')
+        rec.event(step, 'calibrate', 'returned', core.digest(ret))
       call = 'calibrate()'
     elif kind == 'quantize':
       Q = qs.get(op['q'])
@@ -393,13 +394,15 @@ def execute(doc):
       if n_quant[op['q']] >= 2:
         rec.probe('second_quantize_same_object')
         rec.nontrivial = True
+      res = None
       try:
         res = Q['obj'].quantize(arg)
+      except Exception as e:  # pylint: disable=broad-except
+        out = 'raise:' + harness.exc_class(e)
+      if res is not None:
         out = core.sha(res.quantized_model)
         Q['result'] = res
         owned.add('result:q%d@%d' % (op['q'], step), res.quantized_model, 'model')
-      except Exception as e:  # pylint: disable=broad-except
-        out = 'raise:' + harness.exc_class(e)
       rec.event(step, 'quantize', out)
       mdesc = doc['world']['models'][Q['model']]
       rec.oblige('C14/history-dependence/' + ('exception' if out.startswith('raise:') else 'bytes'),
